@@ -16,7 +16,7 @@ sig_name = z3.Function('sig_name', z3.IntSort(), Ref)        # signals.name_for_
 id_of = z3.Function('id_of', Ref, z3.IntSort())
 
 BUILTIN_TYPES = {'pqheap', 'deque', 'list', 'dict', 'Queue', 'PriorityQueue', 'Thread', 'ThreadEvent', 'RLock', 'str',
-                 'datetime', 'uuid', 'tuple', 'match', 'frame', 'code'}
+                 'datetime', 'uuid', 'tuple', 'match', 'frame', 'code', 'idmap'}
 
 
 def base_type(pt):
@@ -366,6 +366,13 @@ def for_setup(it, st, env):
     if isinstance(itv, tuple) and itv and itv[0] == 'range_rev':
         return itv
     if isinstance(itv, SRef) and itv.pytype == 'odict_items':
+        if getattr(it.w, 'guarded_registries', ()) and is_odict(it, SRef(itv.e, it.w.guarded_registries[0])):
+            # a Python-level loop over a live view of the registry: an insertion by another thread in the middle of it
+            # raises RuntimeError("OrderedDict mutated during iteration"); it needs the writers' lock (or a snapshot)
+            locks = c.pyghost.get('locks_seen', [])
+            held = z3.Or([c.hget(l, 'held') > 0 for l in locks]) if locks else z3.BoolVal(False)
+            c.prove('%s:guarded/registry-iterated-under-the-writers-lock-or-over-a-snapshot' % it.where(), held,
+                    tags=('lock',), assume_after=False)
         return ('oditems', itv)
     raise Unsupported('for over %r' % (itv,))
 
@@ -647,6 +654,27 @@ def call_builtin(it, b, args, kwargs, node):
         r = c.fresh_ref('str', 'str', distinct=False)
         c.assume(sval(r.e) == str_of(c.to_ref(v)))
         return r
+    if n == 'getattr' and len(args) == 2 and isinstance(args[0], SRef) and args[0].pytype in it.src.classes:
+        # getattr(obj, name): the normal lookup wins whenever `name` is a real attribute of the object (instance
+        # attribute, method, class attribute, inherited dict API); only otherwise __getattr__(name) is consulted
+        o, a = args
+        if isinstance(a, str):
+            return it.get_attr(o, a)
+        if isinstance(a, SRef) and a.pytype in ('str', None):
+            names = set(it.src.init_attrs(o.pytype))
+            for cn in it.src.mro(o.pytype):
+                ci = it.src.classes.get(cn)
+                if ci:
+                    names |= set(ci.methods) | set(ci.attrs)
+                    if any(b not in it.src.classes for b in ci.bases):
+                        names |= set(dir(__import__('collections').OrderedDict))
+            cond = z3.Or([sval(a.e) == c.strconst(k) for k in sorted(names)])
+            if c.branch(cond, 'getattr-name-is-a-real-attribute'):
+                return c.fresh_ref('some_attribute_value', None, distinct=False)
+            ga = it.src.find_method(o.pytype, '__getattr__')
+            if ga is None:
+                raise Raised('AttributeError')
+            return it.call_func(it.w_method(ga).bind(o), [SRef(a.e, 'str')], {})
     if n == 'hasattr':
         o, a = args
         if isinstance(o, SRef) and o.pytype in it.src.classes and isinstance(a, str):
@@ -674,6 +702,13 @@ def call_builtin(it, b, args, kwargs, node):
         raise Unsupported('map')
     if n == 'list':
         a0 = args[0]
+        if isinstance(a0, SRef) and a0.pytype == 'idmap':
+            # list(map(id, registry)): the identities, position by position (a snapshot: callers here only read it
+            # before they change the registry)
+            snap = new_seq(it, 'list', (), None, 'idlist')
+            c.hset(snap, '$items', seq_items(it, a0))
+            c.hset(snap, '$len', seq_len(it, a0))
+            return SRef(snap.e, 'idmap')
         if isinstance(a0, SRef) and a0.pytype in ('odict_values', 'odict_keys'):
             return od_view_list(it, a0, 'values' if a0.pytype == 'odict_values' else 'keys')
         return seq_copy(it, a0, 'list')
@@ -791,7 +826,7 @@ def call_builtin(it, b, args, kwargs, node):
         return hook(it, obj, n.split('.', 1)[1], args)
     bt = base_type(n.split('.', 1)[0]) if '.' in n else None
     meth = n.split('.', 1)[1] if '.' in n else None
-    if bt in ('deque', 'list'):
+    if bt in ('deque', 'list', 'idmap'):
         return seq_call(it, obj, meth, args, kwargs)
     if bt == 'dict':
         if meth == 'keys':
@@ -865,8 +900,20 @@ def type_is(it, o, k, sub=False):
             raise Unsupported('type test on an untyped reference')
         if pt in it.src.classes:
             return kn == pt or (sub and kn in it.src.mro(pt))
+        if pt in ABSTRACT_TYPES:
+            # an abstract static type (e.g. a subscriber's queue: a deque or an active object's LockingDeque): the test
+            # has no static answer; it is a property of the object
+            if kn not in ABSTRACT_TYPES[pt]:
+                return False
+            others = [x for x in ABSTRACT_TYPES[pt] if x != kn]
+            c.assume(z3.Sum([z3.If(isa(o.e, c.strconst(x)), 1, 0) for x in ABSTRACT_TYPES[pt]]) == 1)
+            return SBool(isa(o.e, c.strconst(kn)))
         return kn == pt
     return False
+
+
+ABSTRACT_TYPES = {'subq': ('deque', 'LockingDeque')}
+isa = z3.Function('is_instance_of', Ref, StrV, z3.BoolSort())
 
 
 def signals_call(it, meth, args, kwargs):
@@ -913,7 +960,21 @@ def seq_call(it, obj, meth, args, kwargs):
         return seq_popleft(it, obj)
     if meth == 'pop':
         if args:
-            raise Unsupported('pop(i)')
+            # pop(i): the element at position i leaves, the ones behind it move up
+            n, items = seq_len(it, obj), seq_items(it, obj)
+            i0 = c.to_int(args[0])
+            i = z3.If(i0 < 0, n + i0, i0)
+            if not c.branch(z3.And(0 <= i, i < n), 'pop-index-in-range'):
+                raise Raised('IndexError')
+            out = SRef(z3.Select(items, i), elem_type(obj.pytype))
+            A = c.fresh('after_pop', IntArr)
+            j = z3.Int('j!pop')
+            c.assume(z3.ForAll([j], z3.Implies(z3.And(0 <= j, j < n - 1),
+                                               z3.Select(A, j) == z3.If(j < i, z3.Select(items, j), z3.Select(items, j + 1))),
+                               patterns=[z3.Select(A, j)]))
+            c.hset(obj, '$items', A)
+            c.hset(obj, '$len', n - 1)
+            return out
         return seq_pop(it, obj)
     if meth == 'clear':
         c.hset(obj, '$len', z3.IntVal(0))
@@ -931,6 +992,18 @@ def seq_call(it, obj, meth, args, kwargs):
         return None
     if meth == 'copy':
         return seq_copy(it, obj, base_type(obj.pytype))
+    if meth == 'index' and obj.pytype == 'idmap':
+        # list(map(id, registry)).index(id(q)): first position holding that very object
+        n, items = seq_len(it, obj), seq_items(it, obj)
+        target = c.to_int(args[0])
+        i = c.fresh('idx', z3.IntSort())
+        j = z3.Int('j!ix')
+        found = z3.Exists([j], z3.And(0 <= j, j < n, id_of(z3.Select(items, j)) == target))
+        if not c.branch(found, 'index-found'):
+            raise Raised('ValueError')
+        c.assume(z3.And(0 <= i, i < n, id_of(z3.Select(items, i)) == target))
+        c.assume(z3.ForAll([j], z3.Implies(z3.And(0 <= j, j < i), id_of(z3.Select(items, j)) != target)))
+        return SInt(i)
     if meth == 'index':
         # first position whose element == the argument (value equality)
         n, items = seq_len(it, obj), seq_items(it, obj)
